@@ -888,6 +888,7 @@ class Gen:
                 v = rng.choice([b, repr(f), "%.20g" % f, "%.17g" % up, "%.17g" % dn, "0", "-0", "1e400", "-1e400", "abc", "", "1e-400"])
             if len(v) > 1200:
                 v = repr(f)
+            v, rtext = v.replace("inf", "1e400"), rtext.replace("inf", "1e400")     # (the `inf` spelling is not modelled; an overflowing decimal is)
             ops.append("realrange r=%s v=%s" % (hx(rtext), hx(v)))
         self.stats["realrange_ops"] = self.stats.get("realrange_ops", 0) + len(ops)
         return {"name": "rrng%d" % cid, "ops": ops, "sticky": 0}
@@ -1008,6 +1009,8 @@ class Gen:
             return self.atof_case(cid)
         if cid % 50 == 11:
             return self.defapp_case(cid)
+        if cid % 50 == 36:
+            return self.realrange_case(cid)
         if cid % 25 in (13, 21):
             return self.multicfg_case(cid)
         rng = self.rng
@@ -1020,6 +1023,7 @@ class Gen:
             self.stats["help_ops"] = self.stats.get("help_ops", 0) + 1
         nsrc = rng.choice([1, 1, 2, 2, 3, 3, 4, 5])
         kinds = []
+        no_argv0 = False
         spoofed = False
         ncmd = nenv = 0
         for _ in range(nsrc):
@@ -1059,11 +1063,17 @@ class Gen:
             if rng.random() < 0.4:
                 ops.append("dump")
             last_src = ops[-2] if ops[-1] == "dump" else ops[-1]
+            if last_src in ("spoof s=-", "spoof s=20"):
+                no_argv0 = True                    # an empty spoofed command line: argc = 0, there is no argv[0] to print
+            if not no_argv0 and rng.random() < 0.2:
+                ops.append("dumptext")             # esl_getopts_Dump
+                self.stats["dumptext"] = self.stats.get("dumptext", 0) + 1
             if kinds[-1] in ("cmdline", "spoof") and last_src not in ("spoof s=-", "spoof s=20") and rng.random() < 0.35:
                 ops.append("spoofcmd")             # esl_opt_SpoofCmdline needs a processed command line (argv[0])
                 self.stats["spoofcmd"] = self.stats.get("spoofcmd", 0) + 1
             if rng.random() < 0.05:
                 ops += ["reuse", "dump"]           # back to defaults; a new spoofed command line is allowed again
+                no_argv0 = False
                 spoofed = False
                 self.cmd_used = set()
                 ncmd = nenv = 0
@@ -1122,6 +1132,9 @@ class C14(Prop):
         "displayHelp_fails_iff", "displayHelp_output_documented", "spoofed_cmdline_lists_set_and_on_options", "spoofCmdline_never_crashes", "defaultApp_returns_iff",
         "flag_with_empty_value_is_usage_error", "empty_attached_value_is_the_argument", "empty_attached_value_consumes_nothing",
         "empty_value_rejected_by_numeric_types", "empty_value_stored_by_string_types", "empty_value_char_is_terminator",
+        "real_range_two_sided_on_doubles", "real_range_two_sided_literal_on_doubles", "real_range_lower_on_doubles", "real_range_upper_on_doubles",
+        "rounding_never_reorders_magnitudes", "lower_bound_on_doubles_is_monotone",
+        "dump_tells_setters_apart", "dump_boolean_setting_is_IsOn", "dump_never_crashes",
         "accepted_integer_satisfies_range_as_getter_returns_it",
         "strtod_rounds_to_nearest", "strtod_exact_on_representable", "strtod_rounding_monotone_in_binade", "strtod_monotone",
         "real_range_test_monotone", "inclusive_real_bound_accepts_every_true_member",
@@ -1140,7 +1153,7 @@ class C14(Prop):
                   "esl_opt_SpoofCmdline lists exactly the options that were set and are on; esl_getopts_CreateDefaultApp returns the object iff the command line parses, the configuration verifies, -h is off and the argument count is the required one (otherwise it exits); an accepted integer satisfies its range as esl_opt_GetInteger returns it (also beyond the int range); the strtod model (decimal -> nearest binary64, ties to even, subnormals, overflow) is exact on representable values, a nearest value otherwise, and monotone, so the real range test never reorders. The hand model is tied to the working tree by an exact differential run (12000 cases per quick run: random well-formed tables x sources, 8% ill-formed tables, multi-config-file histories with values of decreasing/equal/increasing length, help/spoof calls, 14000 strtod strings compared bit for bit with glibc); a divergence or monitor failure is a concrete failing input.")
     level_note = ("Trusted: Lean kernel + propext/Classical.choice/Quot.sound; fidelity of the hand model (incl. its strtol/strtod/strtok/fgets models) is checked, not proved, by the differential run; "
                   "'+/- prefixed booleans' clause is vacuous in this version (a '+' word is an argument: theorem plus_word_is_argument); history theorems for well-formed tables (ill-formed tables: Create / first-use theorems without hypothesis, IllFormed.lean); reals restricted to <= 15 significant digits (DBL_DIG) and the normal exponent range, where decimal order = double order; "
-                  "integer, character and real range strings of the documented forms are proved to mean the intended bounds (reals: order of the denoted rationals; lower bounds written as plain decimal literals are proved to be read exactly; exponent spellings only by examples and the differential run). Round 6: the real range theorems still speak about exact decimals (agreeing with the doubles for <= 15 significant digits: not proved); the rounding model of Round.lean is proved exact/nearest/monotone and compared bit for bit with glibc's atof, but verify_real_range's theorems are not yet restated over it.")
+                  "integer, character and real range strings of the documented forms are proved to mean the intended bounds (reals: order of the denoted rationals; lower bounds written as plain decimal literals are proved to be read exactly; exponent spellings only by examples and the differential run). Round 6: the real range theorems still speak about exact decimals (agreeing with the doubles for <= 15 significant digits: not proved); the rounding model of Round.lean is proved exact/nearest/monotone and compared bit for bit with glibc's atof, and Round 6b restates verify_real_range over it (`realRangeOkD`, RealRound.lean: theorems real_range_*_on_doubles; `realrange` op: ~5 700 arguments of 16-60 digits at / next to / half-way between the doubles around each bound per run, compared exactly through Create+ProcessCmdline+GetReal). The history model still calls the exact-decimal test (identical for <= 15 digits), the double-based one is tied through the `realrange` op.")
     trusted_base = ["hand model of esl_getopts.c (+ esl_str_IsInteger/IsReal, esl_strtok from easel.c; byte-level allocation layer; strtod rounding) tied by exact differential run (h_getopts.c, ASan+UBSan build of the working tree)",
                     "Lean compiler/runtime for the executable driver", "gcc, glibc strtol/strtod/getenv/fgets"]
     assumptions = [
@@ -1156,7 +1169,8 @@ class C14(Prop):
         "esl_opt_DisplayHelp (pure function of the table; output compared byte for byte at widths around its three layout thresholds) and esl_opt_SpoofCmdline (after fix af97bd9) are modelled and compared exactly; the documentation's 'lines are not allowed to exceed textwidth' holds only up to +2 (the ' :' separator is not counted by the code when an option has a help string): proved bound textwidth+2, reported, not repaired (it would change the layout of every help page)",
         "integer arguments and bounds beyond the int range are generated (2^31, 2^32+k, 2^63, 20+ digits): range check and esl_opt_GetInteger read them with the same atoi() = (int) strtol (clamp to long, low 32 bits), modelled exactly; monitor: a value that passed its range check satisfies the range as GetInteger returns it",
         "esl_getopts_CreateDefaultApp is modelled as a function to its four endings (returned object / exit(0) after help / exit(1) usage error / exit(1) wrong argument count) and run in a forked child by the harness (`defapp` op); the text it prints is not compared beyond its first line's kind",
-        "allocation failure paths, esl_getopts_Dump, esl_getopts_CreateOptsLine are not modelled",
+        "esl_getopts_Dump is modelled (DumpText.lean; an argument option that is off prints as glibc's `(null)`) and compared byte for byte (`dumptext` op)",
+        "allocation failure paths and esl_getopts_CreateOptsLine are not modelled",
     ]
     rule = ("case = random well-formed option table (1-12 options) + 1-5 sources (cmdline/spoof/env/config file, occasionally Reuse in between) in random order, dumps of every query call in between, + VerifyConfig + full dump; "
             "non-trivial = at least one source returned ok and the final dump shows an option not at its default setter; distinct by output trace")
@@ -1498,6 +1512,13 @@ class C14(Prop):
                     f = self.check_help(case, op, unhx(p[1]))
                     if f:
                         return Failure("monitor", f)
+            elif w == "dumptext":
+                if not l.startswith("ok "):
+                    return Failure("monitor", "esl_getopts_Dump answered %r" % l[:80])
+                nopt = sum(1 for o in case["ops"] if o.startswith("opt "))
+                tl = (unhx(l.split()[1]) or "").split("\n")
+                if "------------ ------------ ---------" not in tl or len(tl) - 1 - tl.index("------------ ------------ ---------") - 1 != nopt:
+                    return Failure("monitor", "esl_getopts_Dump does not print one line per option after its header")
             elif w == "spoofcmd":
                 if not l.startswith("ok "):
                     return Failure("monitor", "SpoofCmdline returned %r" % l[:80])
